@@ -98,7 +98,7 @@ def check_app_level_wrappers(rep, rule):
     direct = 'self.middlewares' in norm(src)
     ok, why = False, ''
     if isinstance(src, ast.Call) and isinstance(src.func, ast.Name):
-        kind, m, obj = repo.resolve(app, src.func.id)
+        kind, m, obj = repo.resolve(init.mod, src.func.id)      # (the module the constructor is written in; resolve follows imports)
         if kind == 'func' and m is not None and not m.external:
             params = obj.params()
             bound = {}
@@ -128,4 +128,4 @@ def check_app_level_wrappers(rep, rule):
     rep.check(rule, fkey(init, 'application middlewares are wrapper sources'), ok,
               'the wrapping loop runs over a list that contains self.middlewares whether or not routes are bound' if ok else
               'the WSGI wrappers are collected from the bound routes only (%s): an Application created without routes -- routes '
-              'added later with add(), or none -- never applies the wsgi_wrapper of its own middlewares' % why, app, plan.node)
+              'added later with add(), or none -- never applies the wsgi_wrapper of its own middlewares' % why, lf.mod, plan.node)
